@@ -213,7 +213,8 @@ PROPS = {
                    "UNION/INTERSECTION/DIFFERENCE/COMPLEMENT across forests; operands re-shown unchanged.",
         level_note=_MODELLED + "The library's terminal shortcuts and compute table are not mirrored (C07)."),
     "C05": dict(
-        gens=[("arith", gen.gen_C05, 0.8), ("reuse-arith", lambda r: gen.gen_reuse(r, "arith"), 0.4)],
+        gens=[("arith", gen.gen_C05, 0.8), ("reuse-arith", lambda r: gen.gen_reuse(r, "arith"), 0.4),
+              ("evplus", gen.gen_C05_ev, 0.4)],
         quick=60, thorough=600,
         level_text="Proved: element-wise binary/unary operations are pointwise for an arbitrary scalar function "
                    "(instantiated with the catalogue in Model/Scalar.v). Tie: tables+dumps for "
@@ -221,7 +222,7 @@ PROPS = {
         level_note=_MODELLED + "IEEE rounding not modelled: real values are exact multiples of 1/2. EV+/EV* "
                    "arithmetic compared at table level."),
     "C10": dict(
-        gens=[("copy", gen.gen_C10, 1.0)], quick=60, thorough=600,
+        gens=[("copy", gen.gen_C10, 0.8), ("copy-ev", gen.gen_C10_ev, 0.5)], quick=60, thorough=600,
         level_text="Proved: copy is the pointwise scalar conversion and copy-there-and-back is the identity "
                    "when the conversion is invertible on the values taken (via canonicity). Tie: every ordered "
                    "pair of MT forest kinds over the same domain.",
